@@ -59,7 +59,9 @@ CHECKS = {
             "raising) / connect variants (ok, non-EBB, open fails, silent, old firmware, "
             "version-less, name not found) and every method once more; an unrelated decoy object "
             "must stay untouched: zero write attempts, failure value, no "
-            "exception, and a logged first-error-wins latch are checked on every transition.",
+            "exception, and a logged first-error-wins latch are checked on every transition; on "
+            "the healthy object a port exception of any kind (SerialException, OSError, "
+            "RuntimeError) during a non-exempt request must be latched, not escape.",
             "Trusts the fake port/board; connect() faults are left to C15; histories of depth "
             "<= 4 (5 thorough).",
             "DESIGN.md §3 C04"),
@@ -115,7 +117,9 @@ CHECKS = {
             "the SVG 1.1 rule in exact rationals, compared through the mapping",
             "Full product of viewBox geometry, document sizes, none + 9 alignments, meet/slice/"
             "absent, defer, spelling and separator variants, plus pages and viewBoxes whose "
-            "aspect ratios differ by 1e-7..1e-3 or not at all; invalid inputs must give identity.",
+            "aspect ratios differ by 1e-7..1e-3 or not at all; malformed viewBoxes and the whole "
+            "sign lattice of the four sizes (8^4 tuples with at least one non-positive) must "
+            "give identity.",
             "Python-only numerals (nan, inf, 1_0) and unknown keywords are outside the quantifier.",
             "DESIGN.md §3 C11"),
     "C12": ("exhaustive enumeration (E3) of all strings up to length 5/6 over a numeral alphabet x "
@@ -138,13 +142,15 @@ CHECKS = {
     "C14": ("exhaustive enumeration (E3) of box multisets x query boxes against brute force",
             "All multisets of up to 4 (thorough 5) boxes over a 3-value coordinate alphabet (36 "
             "boxes, half of them degenerate) x all 36 queries, smaller multisets over 4 values, "
-            "all 4096 subsets of a deep 12-box arrangement; construction depth/time budget; an "
+            "all 4096 subsets of a deep 12-box arrangement; every query list is asked forwards then "
+            "backwards on the same index object; construction depth/time budget; an "
             "unrelated index built first must keep its answers (no state shared between indexes).",
             "Exhaustive over the alphabets only.",
             "DESIGN.md §3 C14"),
     "C15": ("exhaustive enumeration of version/threshold pairs (E3) plus deviation-bounded "
             "exploration of connect() handshake histories (E1/E2) with stubbed enumerator/port",
-            "729x729 version pairs through both layers' min_version; connect() histories "
+            "729x729 version pairs through both layers' min_version, 42 ordered pairs of boards "
+            "alive side by side asked a, b, a; connect() histories "
             "(connect+requests, connect-connect, connect-disconnect-connect) under every "
             "environment vector with <= 2 (thorough 3) deviations over open failure, 9 banner "
             "kinds per probe, late/silent/error replies and raising I/O incl. close(): True+no-error only "
@@ -188,7 +194,8 @@ CHECKS = {
             "DESIGN.md §3 C19"),
     "C20": ("exhaustive enumeration (E3) of token sequences (lxml round trip) and of every "
             "millisecond across the minute/hour rollovers with an exact oracle",
-            "All token sequences up to length 4 (thorough 5) over specials, entities and text; "
+            "All token sequences up to length 4 (thorough 5) over specials, entities and text; every "
+            "XML 1.0 character U+0020..U+10FFFF alone, after a letter and before a combining mark; "
             "every integer millisecond 0..3.7e6 in both units, the three floats around every "
             "half-second boundary to 1e5 (1e6) s.",
             "TAB/CR/LF in attributes outside the quantifier; exact .5 ties accept both.",
